@@ -453,6 +453,74 @@ theorem setChildren_rej_id {s : Store} (h : BWF s) (f : Fault) (v : Nat) (l : Li
         · simp [hpre, hpost] at hr
 
 
+/-- repeated member `[k, k]` (only reachable with the checks off): the `try` body and the roll-back -/
+theorem childrenRepeat_rollback {s : Store} (h : BWF s) (f : Fault) (v k : Nat) :
+    ∃ stolen t, snapStolen s [some k, some k] [] = some stolen ∧
+      childrenTry f s v [some k, some k] = (t, decide (f = Fault.post)) ∧
+      childrenRollback t v stolen (snapOrphans s [some k, some k]) (s.slots v) = s := by
+  obtain ⟨s1, hdel, hn1, hp1, hs1⟩ := delChildrenBody_spec h v
+  have hup := fun x => h.up x v
+  have hdown := fun x => h.down v x
+  rcases member_facts h v k hp1 with ⟨hk1, hcl1⟩ | ⟨q, i, hk1, hqv, hpk, hi, hset, hcl1⟩
+  · -- after the deleter `k` has no parent: it was an orphan or a child of `v`
+    rcases snap_facts h k with ⟨hk, hcl⟩ | ⟨p, j, hk, hj, hb, hcl⟩
+    · refine ⟨[], _, by simp [snapStolen, hk],
+        by simp [childrenTry, hdel, assignLoop, stealOne, hk1, idx?]; rfl, ?_⟩
+      refine Store.ext' (by simp [childrenRollback, hn1]) (fun x => ?_) (fun x => ?_)
+      · simp [childrenRollback, reparentOld_parent, restoreOrphans_parent, restoreStolen, snapOrphans, hk, hp1] <;> grind
+      · simp [childrenRollback, restoreStolen, hs1] <;> grind
+    · refine ⟨[(k, j, p)], _, by simp [snapStolen, hk, hj, dictSet],
+        by simp [childrenTry, hdel, assignLoop, stealOne, hk1, idx?]; rfl, ?_⟩
+      have hpv : p = v := by
+        have := hp1 k
+        rw [hk1, hk] at this
+        by_cases e : p = v
+        · exact e
+        · simp [e] at this
+      subst hpv
+      refine Store.ext' (by simp [childrenRollback, hn1]) (fun x => ?_) (fun x => ?_)
+      · simp [childrenRollback, reparentOld_parent, restoreOrphans_parent, restoreStolen, snapOrphans, hk, hp1] <;> grind
+      · simp [childrenRollback, restoreStolen, hs1] <;> grind
+  · have hb := set_idx_clear hi (h.distinct q k)
+    have hvq : ¬ v = q := fun e => hqv e.symm
+    refine ⟨[(k, i, q)], _, by simp [snapStolen, hpk, hi, dictSet],
+      by simp [childrenTry, hdel, assignLoop, stealOne, hk1, hqv, hvq, hs1, hi, idx?]; rfl, ?_⟩
+    refine Store.ext' (by simp [childrenRollback, hn1]) (fun x => ?_) (fun x => ?_)
+    · simp [childrenRollback, reparentOld_parent, restoreOrphans_parent, restoreStolen, snapOrphans, hpk, hp1] <;> grind
+    · simp [childrenRollback, restoreStolen, hs1, hset, hqv] <;> grind
+
+
+/-- **C02 (BinaryNode, children setter), both settings of the assertion switch.** From a well-formed
+store a raising `v.children = l` changes nothing — also with the checks off, where self, ancestors
+and repeated members reach the assignment loop and only a hook can raise. -/
+theorem setChildren_rej_id_any {s : Store} (h : BWF s) (a : Bool) (f : Fault) (v : Nat)
+    (l : List (Option Nat)) (hr : (setChildren a f s v l).2 = .rej) : (setChildren a f s v l).1 = s := by
+  unfold setChildren at hr ⊢
+  cases hnorm : normChildren l with
+  | none => rfl
+  | some new =>
+    obtain ⟨c1, c2, rfl⟩ := normChildren_some hnorm
+    by_cases hb : (a && childrenLoopBad s v [c1, c2] []) = true
+    · simp [hb]
+    · by_cases hrep : ∃ k, c1 = some k ∧ c2 = some k
+      · obtain ⟨k, rfl, rfl⟩ := hrep
+        obtain ⟨stolen, t, hsn, ht, hroll⟩ := childrenRepeat_rollback h f v k
+        simp only [hnorm, hb, hsn, ht] at hr ⊢
+        by_cases hpre : f = Fault.pre
+        · simp [hpre]
+        · by_cases hpost : f = Fault.post
+          · simp [hpost, hroll]
+          · simp [hpre, hpost] at hr
+      · have hd : ∀ k, c1 = some k → c2 ≠ some k := fun k e1 e2 => hrep ⟨k, e1, e2⟩
+        obtain ⟨t, ht, hn, hpt, hst⟩ := childrenTry_spec h f v c1 c2 hd
+        obtain ⟨stolen, hsn, hroll⟩ := childrenRollback_spec h v c1 c2 hd hn hpt hst
+        simp only [hnorm, hb, hsn, ht] at hr ⊢
+        by_cases hpre : f = Fault.pre
+        · simp [hpre]
+        · by_cases hpost : f = Fault.post
+          · simp [hpost, hroll]
+          · simp [hpre, hpost] at hr
+
 /-- `v.left = x` is `v.children = [x, v.right]` -/
 theorem setLeft_rej_id {s : Store} (h : BWF s) (f : Fault) (v : Nat) (x : Option Nat)
     (hr : (setLeft true f s v x).2 = .rej) : (setLeft true f s v x).1 = s := by
@@ -488,6 +556,32 @@ theorem step_rej_id {s : Store} (h : BWF s) (op : Op) (hr : (step true s op).2 =
       | some l => exact setChildren_rej_id h f v l hr
     | left v x f => exact setLeft_rej_id h f v x hr
     | right v x f => exact setRight_rej_id h f v x hr
+    | del v => simp [delChildren_ok h v] at hr
+    | sort v sw => simp at hr
+
+/-- **C02 (BinaryNode), both settings of the assertion switch**, one call from a well-formed store -/
+theorem step_rej_id_any {s : Store} (h : BWF s) (a : Bool) (op : Op) (hr : (step a s op).2 = .rej) :
+    (step a s op).1 = s := by
+  unfold step at hr ⊢
+  by_cases hsub : s.n ≤ op.subject
+  · simp [hsub]
+  · simp only [hsub, if_false] at hr ⊢
+    cases op with
+    | parent v np f => exact setParent_rej_id h a f v np hr
+    | children v l f =>
+      cases l with
+      | none => rfl
+      | some l => exact setChildren_rej_id_any h a f v l hr
+    | left v x f =>
+      simp only [setLeft] at hr ⊢
+      cases hs : slotAt? s v 1 with
+      | none => rfl
+      | some r => simp only [hs] at hr ⊢; exact setChildren_rej_id_any h a f v _ hr
+    | right v x f =>
+      simp only [setRight] at hr ⊢
+      cases hs : slotAt? s v 0 with
+      | none => rfl
+      | some r => simp only [hs] at hr ⊢; exact setChildren_rej_id_any h a f v _ hr
     | del v => simp [delChildren_ok h v] at hr
     | sort v sw => simp at hr
 
